@@ -257,6 +257,74 @@ def check_facade(reg, src):
     return fi
 
 
+def check_t_eval_any_length(reg, src):
+    """solve_ivp with t_eval an array of *symbolic length* n >= 1: the loop `for t in t_eval` is cut by an invariant (as many results as
+    requested times visited so far, each within tol_epsilon of its requested time; the system keeps integrate()'s representation
+    invariant), numpy.sort by its axioms (ascending, same length, same set of values: A3 -- multiplicities of repeated values are only
+    covered by the enumeration for n <= 3 above).  Post: n times are returned, the j-th is the j-th requested time in integration order
+    (ascending for an increasing span, descending for a decreasing one) to tol_epsilon; ValueError only for a time outside the span."""
+    fi = src.func(F, "solve_ivp")
+    ex = Executor(src, reg, prop=PID)
+    ex.oob_raises = True
+    install(ex, reg)
+    n = z3.Int("n_eval")
+    te = SeqVal(z3.Array("t_eval_in", z3.IntSort(), z3.RealSort()), n, "Real")
+    sorted_holder = {}
+
+    def sort(ex_, st, ctx, args, kwargs):
+        v = args[0]
+        if not isinstance(v, SeqVal):
+            raise B.Havoc("sort")
+        S = SeqVal(z3.Array(fresh_name("sorted"), z3.IntSort(), z3.RealSort()), v.length, "Real")
+        i, j = z3.Int(fresh_name("i")), z3.Int(fresh_name("j"))
+        st.assume(z3.ForAll([i, j], z3.Implies(z3.And(0 <= i, i < j, j < v.length), z3.Select(S.arr, i) <= z3.Select(S.arr, j))))
+        st.assume(z3.ForAll([i], z3.Implies(z3.And(0 <= i, i < v.length), z3.Exists([j], z3.And(0 <= j, j < v.length, z3.Select(S.arr, i) == z3.Select(v.arr, j))))))
+        st.assume(z3.ForAll([j], z3.Implies(z3.And(0 <= j, j < v.length), z3.Exists([i], z3.And(0 <= i, i < v.length, z3.Select(S.arr, i) == z3.Select(v.arr, j))))))
+        sorted_holder["S"] = S
+        return S
+    ex.handlers["D.ar_numpy.sort"] = sort
+    SYS = "ode_system"
+    inv = ["len(t_res) == iter_index and len(y_res) == iter_index",
+           "forall(lambda j: implies(0 <= j and j < iter_index, abs(t_res[j] - t_eval[j]) < 8 * eps))",
+           # the system stays in the state integrate() requires and leaves (C03): trajectory buffers exactly as long as the record
+           "%s.counter >= 0 and len(%s._OdeSystem__t) == %s.counter + 1 and len(%s._OdeSystem__y) == %s.counter + 1" % (SYS, SYS, SYS, SYS, SYS),
+           "%s._OdeSystem__dt != 0" % SYS]
+    c = Contract(F, "solve_ivp", sorts={}, requires=[], ensures=[], loops={"for t in t_eval": {"cut": True, "invariant": inv, "symlists": {"t_res": "real", "y_res": "real"}}})
+    st = State()
+    st.assume(n >= 1)
+    t0, tf = z3.Real("t0"), z3.Real("tf")
+    st.assume(t0 != tf)
+    fun = UFunc("user_fun", "opaque", attrs={"__params__": ["t", "y"]})
+    ctx = Ctx(fi, c, None, tag="solve_ivp[t_eval,any-length]")
+    ctx.entry = st.fork()
+    paths = ex.call_function(fi, [], dict(fun=fun, t_span=(t0, tf), y0=Opaque("y0"), t_eval=te), st, ctx, contract=c)
+    lo, hi = z3.If(t0 < tf, t0, tf), z3.If(t0 < tf, tf, t0)
+    k_ = z3.Int("k_in")
+    inside = z3.ForAll([k_], z3.Implies(z3.And(0 <= k_, k_ < n), z3.And(z3.Select(te.arr, k_) >= lo, z3.Select(te.arr, k_) <= hi)))
+    n_norm = 0
+    for k, (s, v) in enumerate(paths):
+        if isinstance(v, Raised):
+            ex.prove(s, ctx, z3.Not(inside), "post-exc", "raises-only-for-times-outside-the-span#%d" % k)
+            reg.ground("%s/%s/raises-ValueError#%d" % (PID, ctx.tag, k), "post-exc", "solve_ivp", v.exc.cls == "ValueError", backend="symbolic-exec", detail="exception class %s" % v.exc.cls)
+            continue
+        n_norm += 1
+        res = s.obj(v).fields
+        tr = res["t"]
+        S = sorted_holder.get("S")
+        if not (isinstance(tr, SeqVal) and S is not None):
+            reg.undecided("%s/%s/result#%d" % (PID, ctx.tag, k), "unsupported", "solve_ivp", "t result %r" % (tr,))
+            continue
+        j = z3.Int("j_out")
+        want = z3.If(tf > t0, z3.Select(S.arr, j), z3.Select(S.arr, n - 1 - j))
+        d = z3.Select(tr.arr, j) - want
+        ex.prove(s, ctx, tr.length == n, "post", "as-many-times-as-requested#%d" % k)
+        ex.prove(s, ctx, z3.ForAll([j], z3.Implies(z3.And(0 <= j, j < n), z3.If(d >= 0, d, -d) < 8 * ex.eps)), "post", "j-th-time-is-the-j-th-requested-time-in-integration-order#%d" % k)
+        yr = res["y"]
+        ex.prove(s, ctx, yr.length == n if isinstance(yr, SeqVal) else False, "post", "one-state-per-time#%d" % k)
+    reg.ground("%s/%s/paths-explored" % (PID, ctx.tag), "lemma", "solve_ivp", n_norm >= 2, detail="%d normal paths (increasing and decreasing span), %d in all" % (n_norm, len(paths)))
+    return fi
+
+
 def max_step_chain(reg, src):
     """integrate() with the clipping callback's contract (|dt| <= M after every callback, sign kept) and |dt| <= M initially never
     records a step longer than M."""
@@ -302,6 +370,10 @@ def run(tier):
     try:
         R.under_contract(check_facade(reg, src))
         R.under_contract(max_step_chain(reg, src))
+        try:
+            check_t_eval_any_length(reg, src)          # t_eval of any length: the loop over the requested times cut by an invariant
+        except Unsupported as e:
+            reg.undecided(PID + "/solve_ivp[t_eval,any-length]/unsupported", "unsupported", "executor", str(e))
         from . import ctor
         for fi in IC.verify_helpers(src, reg, PID):
             R.under_contract(fi)
